@@ -285,19 +285,26 @@ class Check(PropertyCheck):
     prop = "C28"
     design_ref = "§5 C28"
     level_text = ("Lean theorems for ALL event sequences, addon policies and payloads about the model of WebsocketLayer."
-                  "relay_messages + Fragmentizer: each_message_once_in_order (per direction the messages delivered to the other "
-                  "peer are exactly the recorded non-dropped ones, in order, one well-framed burst each), binary_exact, text_exact "
-                  "(concatenated text fragments = decode-replace of the recorded content for every byte string, = the content itself "
-                  "when it is UTF-8), unmodified_keeps_boundaries, pings_pongs_relayed, close_code_reason_recorded; model tied to the "
-                  "code (a) Fragmentizer and the UTF-8 replace automaton alone, (b) the whole layer between in-memory wsproto "
-                  "client/server peers with and without permessage-deflate under keep/same-length/length-changing edit/drop/inject.")
-    level_note = ("trusted: wsproto (frame codec, permessage-deflate, incremental UTF-8 decoding of received text) is a parameter of "
-                  "the model: the model consumes the events a shadow wsproto connection yields for the same bytes and its outputs "
-                  "are compared with what in-memory wsproto peers decode from the proxy's SendData; text frame boundaries are "
-                  "compared at wsproto-event level (a received frame that ends inside a character hands that character over with "
-                  "the next frame). text_exact needs the message content to be UTF-8 (otherwise the peer receives the "
-                  "decode-replace image, which the theorem states too). Two defects were repaired in /repo (fix: commits), the "
-                  "model follows the repaired code.")
+                  "relay_messages + Fragmentizer (after two fix: commits): each_message_once_in_order (per direction, what the "
+                  "other peer reassembles = the recorded non-dropped messages, once each, in order, with type), "
+                  "each_burst_is_one_message, delivered_equals_recorded (exact recorded content when text contents are UTF-8), "
+                  "binary_exact, text_exact (text fragments concatenate to decode-replace(content) for EVERY byte string), "
+                  "text_exact_utf8 (= content for every concatenation of well-formed UTF-8 sequences), "
+                  "unmodified_keeps_boundaries + text_buffer_stays_valid, injected_recorded_once, pings_pongs_relayed, "
+                  "close_code_reason_recorded; model tied to the code (a) Fragmentizer and the UTF-8 replace automaton alone, "
+                  "(b) the whole layer between in-memory wsproto client/server peers with and without permessage-deflate under "
+                  "keep / same-length edit / length-changing edit / drop / inject.")
+    level_note = ("trusted: wsproto (frame codec, permessage-deflate, incremental UTF-8 decoding of received text, its connection "
+                  "state machine) is a parameter of the model: the model consumes the events a shadow wsproto connection yields "
+                  "for the same bytes and its outputs are compared with the events the layer hands to wsproto.send (frame "
+                  "boundaries) while the property oracle works on what the in-memory peers decode from SendData. Frame boundaries "
+                  "of text are compared at wsproto-event level (a received frame that ends inside a character hands that character "
+                  "over with the next frame); under permessage-deflate the boundaries of the uncompressed data are only "
+                  "observable at the send-event level. unmodified_keeps_boundaries and pings_pongs_relayed are per-event "
+                  "statements (with the invariant lemma text_buffer_stays_valid), the other theorems are over whole runs. "
+                  "The model's `crash` branch (send on a non-open wsproto connection) is not reachable through wsproto 1.3, "
+                  "which yields nothing behind a close frame; run-level theorems assume it did not happen. A text message whose "
+                  "content an addon set to non-UTF-8 bytes is delivered as its decode-replace image (stated by text_exact).")
     technique = "Lean 4 proof (induction over event sequences and byte strings) + differential model-vs-code correspondence (Fragmentizer and full layer)"
     rule = ("san: byte soups over UTF-8 lead/continuation boundary values; frag: (is_text, original fragment lengths, new content) "
             "with 1-4 byte characters straddling multiples of FRAGMENT_SIZE and original fragment boundaries, sizes 0..3*FS+3, "
@@ -305,8 +312,8 @@ class Check(PropertyCheck):
             "inside characters, random TCP segmentation, +-deflate), pings/pongs, injections (also between fragments), close/eof, "
             "addon policy per message keep/same-length edit/length-changing edit/drop. distinct = distinct case; non-trivial = "
             "at least one frame/fragment.")
-    budget = {"quick": 5200, "thorough": 205000}
-    time_budget = {"quick": 15, "thorough": 600}
+    budget = {"quick": 5200, "thorough": 120000}
+    time_budget = {"quick": 15, "thorough": 420}
     fingerprints = ["mitmproxy.proxy.layers.websocket:Fragmentizer.__call__", "mitmproxy.proxy.layers.websocket:Fragmentizer.cut",
                     "mitmproxy.proxy.layers.websocket:Fragmentizer.msg", "mitmproxy.proxy.layers.websocket:Fragmentizer.__init__",
                     "mitmproxy.proxy.layers.websocket:WebsocketLayer.relay_messages", "mitmproxy.proxy.layers.websocket:WebsocketLayer.start",
@@ -320,7 +327,7 @@ class Check(PropertyCheck):
     def setup(self, tier):
         # quick tier: the fork pool costs more (pickling multi-kB payloads) than it saves
         self.parallel = tier == "thorough"
-        self._bigp = 0.1 if tier == "thorough" else 0.05   # share of multi-kB payloads (x3)
+        self._bigp = 0.05   # share of multi-kB payloads (x3)
 
     # ---- T: constant regenerated from the live class -------------------------------------------
     def translate(self):
